@@ -26,6 +26,98 @@ class OrdUnknown(Exception):
     pass
 
 
+def _module_value(fi, name: str):
+    """module-level definition of `name` in fi's module: the assigned value expression or the FunctionDef"""
+    found = None
+    for st in fi.module.tree.body:
+        if isinstance(st, ast.Assign) and any(isinstance(t, ast.Name) and t.id == name for t in st.targets):
+            found = st.value if found is None else "multi"
+        elif isinstance(st, ast.AnnAssign) and isinstance(st.target, ast.Name) and st.target.id == name and st.value is not None:
+            found = st.value if found is None else "multi"
+        elif isinstance(st, ast.FunctionDef) and st.name == name:
+            found = st if found is None else "multi"
+    return None if found == "multi" else found
+
+
+_NON_INJECTIVE = {"round", "int", "abs", "floor", "ceil", "trunc", "np.round", "np.abs", "np.floor", "np.ceil", "math.floor",
+                  "math.ceil", "np.around", "bool", "np.sign", "hash", "id"}
+
+
+def _classify_key_body(body, pname: str):
+    """the value a key function returns for its parameter pname"""
+    if isinstance(body, ast.Attribute) and isinstance(body.value, ast.Name) and body.value.id == pname:
+        if body.attr == "cost":
+            return "cost", ""
+        return "dev", f"it ranks by `.{body.attr}`"
+    if isinstance(body, ast.Call) and dotted(body.func) in _NON_INJECTIVE and body.args \
+            and isinstance(body.args[0], ast.Attribute) and isinstance(body.args[0].value, ast.Name) \
+            and body.args[0].value.id == pname:
+        return "dev", f"`{dotted(body.func)}(..)` merges different costs"
+    if isinstance(body, ast.Constant):
+        return "dev", "a constant key"
+    return "unknown", ""
+
+
+def classify_key(fi, key, depth: int = 2):
+    """-> ('cost' | 'dev' | 'unknown', why) for the key= argument of a sort"""
+    if key is None:
+        return "unknown", "no key"
+    if isinstance(key, ast.Lambda) and len(key.args.args) == 1:
+        return _classify_key_body(key.body, key.args.args[0].arg)
+    if isinstance(key, ast.Call) and dotted(key.func) in ("attrgetter", "operator.attrgetter") and len(key.args) == 1 \
+            and isinstance(key.args[0], ast.Constant) and not key.keywords:
+        return ("cost", "") if key.args[0].value == "cost" else ("dev", f"it ranks by `.{key.args[0].value}`")
+    if isinstance(key, ast.Name) and depth > 0:
+        v = _module_value(fi, key.id)
+        if isinstance(v, ast.FunctionDef):
+            rets = [n for n in ast.walk(v) if isinstance(n, ast.Return)]
+            if len(rets) == 1 and len(v.args.args) == 1 and rets[0].value is not None and len(v.body) <= 2:
+                return _classify_key_body(rets[0].value, v.args.args[0].arg)
+            return "unknown", ""
+        if v is not None:
+            return classify_key(fi, v, depth - 1)
+    return "unknown", ""
+
+
+def costs_source(fi, e, depth: int = 2):
+    """Is e 'the costs of <iterable> in order'?  -> ('costs', iterable) | ('dev', why) | None (not a costs expression)"""
+    if isinstance(e, (ast.ListComp, ast.GeneratorExp)) and len(e.generators) == 1 and not e.generators[0].ifs \
+            and isinstance(e.generators[0].target, ast.Name):
+        kind, why = _classify_key_body(e.elt, e.generators[0].target.id)
+        if kind == "unknown" and isinstance(e.elt, ast.Call) and len(e.elt.args) == 1 and not e.elt.keywords \
+                and isinstance(e.elt.args[0], ast.Name) and e.elt.args[0].id == e.generators[0].target.id:
+            kind, why = classify_key(fi, e.elt.func)       # [key(a) for a in population]
+        if kind == "cost":
+            return "costs", e.generators[0].iter
+        if kind == "dev":
+            return "dev", why
+        return None
+    if isinstance(e, ast.Call) and isinstance(e.func, ast.Name) and e.func.id in ("list", "tuple") and len(e.args) == 1 \
+            and not e.keywords:
+        return costs_source(fi, e.args[0], depth)
+    if isinstance(e, ast.Call) and dotted(e.func) in ("np.array", "np.asarray", "numpy.array") and len(e.args) == 1:
+        return costs_source(fi, e.args[0], depth)
+    if isinstance(e, ast.Call) and isinstance(e.func, ast.Name) and e.func.id == "map" and len(e.args) == 2 and not e.keywords:
+        kind, why = classify_key(fi, e.args[0])
+        if kind == "cost":
+            return "costs", e.args[1]
+        if kind == "dev":
+            return "dev", why
+        return None
+    if isinstance(e, ast.Call) and isinstance(e.func, ast.Name) and depth > 0 and len(e.args) == 1 and not e.keywords:
+        v = _module_value(fi, e.func.id)
+        if isinstance(v, ast.FunctionDef) and len(v.args.args) == 1:
+            rets = [n for n in ast.walk(v) if isinstance(n, ast.Return)]
+            if len(rets) == 1 and rets[0].value is not None and len(v.body) <= 2:
+                inner = costs_source(fi, rets[0].value, depth - 1)
+                if inner is not None and inner[0] == "costs" and isinstance(inner[1], ast.Name) \
+                        and inner[1].id == v.args.args[0].arg:
+                    return "costs", e.args[0]
+                if inner is not None and inner[0] == "dev":
+                    return inner
+    return None
+
+
 class OrdDeviation(OrdUnknown):
     """A construct that is understood and deviates from ranking by the agents' cost (e.g. another sort key)."""
 
@@ -191,10 +283,12 @@ class Evaluator:
     def sort_order(self, fi, c: ast.Call, env) -> str:
         kws = {k.arg: k.value for k in c.keywords}
         key = kws.get("key")
-        if not (isinstance(key, ast.Lambda) and isinstance(key.body, ast.Attribute) and key.body.attr == "cost"
-                and isinstance(key.body.value, ast.Name) and key.body.value.id == key.args.args[0].arg):
-            raise OrdDeviation(f"{fi.name}: sort key `{norm(key) if key is not None else None}` is not the agent's cost "
+        kind, why = classify_key(fi, key)
+        if kind == "dev":
+            raise OrdDeviation(f"{fi.name}: sort key `{norm(key) if key is not None else None}` is not the agent's cost: {why} "
                                f"(agents whose costs differ can compare equal or in another order)")
+        if kind != "cost":
+            raise OrdUnknown(f"{fi.name}: sort key `{norm(key) if key is not None else None}` not understood")
         rev = kws.get("reverse")
         r = False
         if rev is not None:
@@ -224,13 +318,15 @@ class Evaluator:
             return self.const(e)
         if isinstance(e, ast.IfExp):
             return self.expr(fi, e.body if self.test(fi, e.test, env) else e.orelse, env)
-        if isinstance(e, (ast.ListComp, ast.GeneratorExp)) and len(e.generators) == 1 and not e.generators[0].ifs \
-                and isinstance(e.elt, ast.Attribute) and e.elt.attr == "cost" and isinstance(e.generators[0].target, ast.Name) \
-                and isinstance(e.elt.value, ast.Name) and e.elt.value.id == e.generators[0].target.id:
-            src = self.expr(fi, e.generators[0].iter, env)
+        cs = costs_source(fi, e)
+        if cs is not None:
+            kind, it = cs
+            if kind == "dev":
+                raise OrdDeviation(f"{fi.name}: `{norm(e, 50)}` is not the list of the agents' costs: {it}")
+            src = self.expr(fi, it, env)
             if isinstance(src, L) and src.window == ("ALL",) and src.order == "ORIG":
                 return Costs(src.src)
-            raise OrdDeviation(f"{fi.name}: costs are taken from `{norm(e.generators[0].iter, 40)}`, not from the whole population in order")
+            raise OrdDeviation(f"{fi.name}: costs are taken from `{norm(it, 40)}`, not from the whole population in order")
         if isinstance(e, ast.Subscript):
             base = self.expr(fi, e.value, env)
             return self.subscript(fi, base, e.slice, env)
@@ -320,15 +416,15 @@ class Evaluator:
                 a0 = c.args[0]
                 if isinstance(a0, ast.Name) and isinstance(env.get(a0.id), Costs):
                     return L(env[a0.id].src, "idx", "ASC", ("ALL",), True)
-                # [agent.cost for agent in population]
-                if isinstance(a0, ast.ListComp) and len(a0.generators) == 1 and not a0.generators[0].ifs \
-                        and isinstance(a0.elt, ast.Attribute) and a0.elt.attr == "cost" \
-                        and isinstance(a0.generators[0].target, ast.Name) and isinstance(a0.elt.value, ast.Name) \
-                        and a0.elt.value.id == a0.generators[0].target.id:
-                    src = self.expr(fi, a0.generators[0].iter, env)
+                cs = costs_source(fi, a0)
+                if cs is not None and cs[0] == "costs":
+                    src = self.expr(fi, cs[1], env)
                     if isinstance(src, L) and src.window == ("ALL",) and src.order == "ORIG":
                         return L(src.src, "idx", "ASC", ("ALL",), True)
-                raise OrdDeviation(f"{fi.name}: argsort of `{norm(a0, 50)}` is not argsort of the agents' costs")
+                    raise OrdDeviation(f"{fi.name}: argsort of `{norm(a0, 50)}` is not argsort of the agents' costs")
+                if cs is not None and cs[0] == "dev":
+                    raise OrdDeviation(f"{fi.name}: argsort of `{norm(a0, 50)}` is not argsort of the agents' costs: {cs[1]}")
+                raise OrdUnknown(f"{fi.name}: argsort argument `{norm(a0, 50)}` not understood")
             if d in ("np.flip", "numpy.flip") and len(c.args) == 1:
                 v = self.expr(fi, c.args[0], env)
                 if isinstance(v, L):
